@@ -45,7 +45,12 @@ def run(chk: Check, proj: Project) -> None:
     s11_string_body_language(chk, proj)
     s13_repaired_token_keeps_its_line(chk, proj)
     from . import C12
+    from . import C07 as _C07
+    from .common import world as _world
 
+    _w = _world(proj)
+    chk.borrow("S14", "the token stream is a function of the source text alone: the lexer keeps its working state (the pieces of the tag being rebuilt, positions, flags) in locals - a module-level scratch buffer that is cleared and refilled per call is shared by threads compiling templates at the same time, and one thread's token then holds the other's text (shared with C07-S1-C)",
+               lambda sub: _C07.s1c_shared(sub, proj, _w, _C07.reach_set(proj, _w)), only=lambda o: o.construct.startswith("util.template_parser:"))
     chk.borrow("S12", "malformed tags end in TemplateSyntaxError, not in a crash of the scanner: every text[<index>] read of the quote-aware tag scanner is guarded by a fresh bounds test for that offset (shared with C12-S2b)",
                lambda sub: C12.s2_subscripts(sub, proj), only=lambda o: "template_parser" in o.construct)
 
